@@ -299,3 +299,95 @@ def check_per_test_hooks(w, events, skipped_layers=()):
             viol.append(('C05/unbalanced-at-end', 'layer %s: testSetUp/testTearDown not balanced at end (%+d)'
                          % (w.names[i], c)))
     return viol
+
+
+def check_per_test_hooks_debug(w, events):
+    """the same bracket discipline for runs in post-mortem mode (-D): there the runner calls startTest / test.debug()
+    / stopTest itself, so the per-test hooks lie *around* the world's run..ran events instead of inside them.
+    A bracket is: testSetUp calls, [run .. ran], testTearDown calls."""
+    viol = []
+    counter = {}
+    st = {'cur': None, 'S': [], 'T': [], 'phase': 'idle', 'started': False}
+
+    def names(xs):
+        return [w.names[j] for j in xs]
+
+    def close():
+        cur, S, T = st['cur'], st['S'], st['T']
+        if cur is None:
+            if S or T:
+                viol.append(('C05/hook-outside-test', 'testSetUp on %s / testTearDown on %s without any test between them'
+                             % (names(S), names(T))))
+        else:
+            rec = w.tests.get(cur)
+            if rec is not None:
+                need = w.clo(rec['layer'])
+                exp_s = {j for j in need if w.has(j, 'testSetUp')}
+                exp_t = {j for j in need if w.has(j, 'testTearDown')}
+                if set(S) != exp_s or len(S) != len(set(S)):
+                    viol.append(('C05/testSetUp-set', 'test %s (-D): testSetUp called on %s, expected once on each of %s'
+                                 % (cur, names(S), sorted(names(exp_s)))))
+                if set(T) != exp_t or len(T) != len(set(T)):
+                    viol.append(('C05/testTearDown-set', 'test %s (-D): testTearDown called on %s, expected once on each '
+                                 'of %s' % (cur, names(T), sorted(names(exp_t)))))
+                for a in range(len(S)):
+                    for b in range(a + 1, len(S)):
+                        if w.is_base_of(S[b], S[a]):
+                            viol.append(('C05/testSetUp-order', 'testSetUp of %s before its base %s (test %s)'
+                                         % (w.names[S[a]], w.names[S[b]], cur)))
+                for a in range(len(T)):
+                    for b in range(a + 1, len(T)):
+                        x, y = T[a], T[b]
+                        if w.is_base_of(x, y):
+                            viol.append(('C05/testTearDown-order', 'testTearDown of base %s before derived %s (test %s)'
+                                         % (w.names[x], w.names[y], cur)))
+                        elif x in S and y in S and S.index(x) < S.index(y):
+                            viol.append(('C05/testTearDown-not-mirrored', 'testSetUp order %s but testTearDown order %s '
+                                         '(test %s)' % (names(S), names(T), cur)))
+        st.update(cur=None, S=[], T=[], phase='idle')
+
+    for e in events:
+        if e['ev'] == 'T' and e['ph'] == 'run':
+            if st['phase'] in ('post', 'in'):
+                close()
+            st['cur'] = e['id']
+            st['phase'] = 'in'
+        elif e['ev'] == 'T' and e['ph'] == 'ran':
+            st['phase'] = 'post'
+        elif e['ev'] == 'L' and e['h'] in ('testSetUp', 'testTearDown') and e['ph'] == 'enter':
+            i = w.idx.get(e['layer'])
+            if i is None:
+                continue
+            if e['h'] == 'testSetUp':
+                if st['phase'] == 'post':
+                    close()
+                if st['phase'] == 'in':
+                    viol.append(('C05/testSetUp-after-test-started', 'testSetUp of %s while test %s is running'
+                                 % (e['layer'], st['cur'])))
+                st['S'].append(i)
+                if st['phase'] == 'idle':
+                    st['phase'] = 'pre'
+                if w.has(i, 'testTearDown'):
+                    counter[i] = counter.get(i, 0) + 1
+                    if counter[i] > 1:
+                        viol.append(('C05/unbalanced-double-setup', 'testSetUp on %s twice without testTearDown'
+                                     % e['layer']))
+                        counter[i] = 1
+            else:
+                if st['phase'] == 'in':
+                    viol.append(('C05/test-code-after-testTearDown', 'testTearDown of %s while test %s is running'
+                                 % (e['layer'], st['cur'])))
+                st['T'].append(i)
+                if w.has(i, 'testSetUp'):
+                    counter[i] = counter.get(i, 0) - 1
+                    if counter[i] < 0:
+                        viol.append(('C05/teardown-without-setup', 'testTearDown on %s without a matching testSetUp'
+                                     % e['layer']))
+                        counter[i] = 0
+    if st['phase'] != 'idle':
+        close()
+    for i, c in counter.items():
+        if c != 0:
+            viol.append(('C05/unbalanced-at-end', 'layer %s: testSetUp/testTearDown not balanced at end (%+d)'
+                         % (w.names[i], c)))
+    return viol
